@@ -1167,7 +1167,7 @@ proof {  assert forall|v: f64| encode_utf8(rv@) == encode_utf8(f64_text(v)) impl
                 let id = self.read_usize();
                 Data::Source(SourceCode::new(k.as_str(), id))
             }
-            9 => Data::Null(),
+            9 => Data::None(),
 
             _ => {
                 self.error(verif_format().as_str());
